@@ -28,7 +28,7 @@ LEVEL_TEXT = ("Exhaustive inventory plus triage: every construct in the reachabl
               "point. Detection of new sites is sound for workspace code; the exceptions' reasons are reviewed, not proved, and the findings listed in "
               "KNOWN_FINDINGS.txt are genuine crash sites that remain.")
 LEVEL_NOTE = "Trusted: rustc MIR (dev profile), the guard-idiom table, external crates' behaviour on malformed input."
-TECHNIQUE = "may-panic site inventory over MIR with dominance-based guard recognition, loop classification, call-graph SCCs"
+TECHNIQUE = "may-panic site inventory over MIR with dominance-based guard recognition, loop classification, call-graph SCCs, dominance of range tests over calendar arithmetic"
 FIXTURE_EXPECT = ["c19.panic", "c19.loop"]
 
 ENTRY = ["hulc::ctehexml::parse_with_catalog", "hulc::ctehexml::parse_with_catalog_from_path", "hulc::kyg::parse", "hulc::kyg::parse_from_path",
